@@ -805,29 +805,38 @@ lysc_path(const struct lysc_node *node, LYSC_PATH_TYPE pathtype, char *buffer, s
 }
 
 LY_ERR
+lys_unres_feat_backup(struct lys_module *mod, struct lys_glob_unres *unres)
+{
+    uint32_t i, cnt;
+    struct lysp_feature *f = NULL;
+    ly_bool *bits;
+
+    /* remember the current feature states, they are restored if the operation fails */
+    for (i = 0, cnt = 0; (f = lysp_feature_next(f, mod->parsed, &i)); ++cnt) {}
+    bits = malloc((cnt + 1) * sizeof *bits);
+    LY_CHECK_ERR_RET(!bits, LOGMEM(mod->ctx), LY_EMEM);
+    for (i = 0, cnt = 0; (f = lysp_feature_next(f, mod->parsed, &i)); ++cnt) {
+        bits[cnt] = (f->flags & LYS_FENABLED) ? 1 : 0;
+    }
+    LY_CHECK_ERR_RET(ly_set_add(&unres->feat_bits, bits, 1, NULL), free(bits), LY_EMEM);
+    LY_CHECK_RET(ly_set_add(&unres->feat_mods, mod, 1, NULL));
+
+    return LY_SUCCESS;
+}
+
+LY_ERR
 _lys_set_implemented(struct lys_module *mod, const char **features, struct lys_glob_unres *unres)
 {
     LY_ERR ret = LY_SUCCESS, r;
     struct lys_module *mod_iter;
     const char **imp_f, *all_f[] = {"*", NULL};
-    uint32_t i, cnt;
-    struct lysp_feature *f = NULL;
-    ly_bool *bits;
-
-    if (features) {
-        /* remember the current feature states, they are restored if the operation fails */
-        for (i = 0, cnt = 0; (f = lysp_feature_next(f, mod->parsed, &i)); ++cnt) {}
-        bits = malloc((cnt + 1) * sizeof *bits);
-        LY_CHECK_ERR_RET(!bits, LOGMEM(mod->ctx), LY_EMEM);
-        for (i = 0, cnt = 0; (f = lysp_feature_next(f, mod->parsed, &i)); ++cnt) {
-            bits[cnt] = (f->flags & LYS_FENABLED) ? 1 : 0;
-        }
-        LY_CHECK_ERR_RET(ly_set_add(&unres->feat_bits, bits, 1, NULL), free(bits), LY_EMEM);
-        LY_CHECK_RET(ly_set_add(&unres->feat_mods, mod, 1, NULL));
-    }
+    uint32_t i;
 
     if (mod->implemented) {
         /* mod is already implemented, set the features */
+        if (features) {
+            LY_CHECK_RET(lys_unres_feat_backup(mod, unres));
+        }
         r = lys_set_features(mod->parsed, features);
         if (r == LY_EEXIST) {
             /* no changes */
